@@ -62,6 +62,8 @@ VARIABLES
   stored,   \* [Nodes -> terms]     terms a node stored (current DBState)
   seen,     \* [Nodes -> SUBSET pid] Process.SeenPackets
   gnet,     \* set of <<pid, to>>    gossip calls in flight
+  plock,    \* recipients whose proposal call from the leader has not returned: the leader's
+            \* Command(proposal) keeps the process lock until all of them have
   phase,    \* [Nodes -> phase of the execution]
   hashes,   \* [Nodes -> SUBSET bundle]  echoBroadcast.hashes
   bnet,     \* set of <<bundle, to>> bundle sends in flight
@@ -70,7 +72,7 @@ VARIABLES
   fin,      \* [Nodes -> group]      finished.FinalGroup of this epoch
   op        \* last action (history; hidden by VIEW)
 
-vars == <<rank, prop, st, stored, seen, gnet, phase, hashes, bnet, qual, clock, fin, op>>
+vars == <<rank, prop, st, stored, seen, gnet, plock, phase, hashes, bnet, qual, clock, fin, op>>
 
 Range(s) == {s[k] : k \in DOMAIN s}
 
@@ -148,14 +150,17 @@ DiffFields(g1, g2) == {f \in GroupFields : Field(g1, f) # Field(g2, f)}
 SameGroup(F) == \A a \in DOMAIN F : \A b \in DOMAIN F : DiffFields(F[a], F[b]) = {}
 SameGroupExcept(F, X) == \A a \in DOMAIN F : \A b \in DOMAIN F : DiffFields(F[a], F[b]) \subseteq X
 
-\* indices are a function of the key order only, whatever the listing order
-OrderIndependent(members, parts, rk) ==
+\* the mechanism: indices are the positions of the keys in sorted order (whatever the listing order)
+IndexIsRank(members, parts, rk) ==
   \A mi \in members : mi[1] \in parts /\ mi[2] = IndexOf(mi[1], parts, rk)
 
+\* the property: two ceremonies over the same keys whose participants were listed in a
+\* different order give every member the same index
+OrderIndependent(members1, members2) ==
+  \A a \in members1 : \A b \in members2 : a[1] = b[1] => a[2] = b[2]
+
 \* a node that completed is a member of its own group at the index of its share
-OwnIndex(n, members, shareIdx, parts, rk) ==
-  /\ <<n, shareIdx>> \in members
-  /\ shareIdx = IndexOf(n, parts, rk)
+OwnIndex(n, members, shareIdx) == <<n, shareIdx>> \in members
 
 Done(F) == {n \in DOMAIN F : F[n] # NoGroup}
 FinOf(F) == [n \in Done(F) |-> F[n]]
@@ -263,6 +268,7 @@ Init ==
   /\ stored = [n \in Nodes |-> NoTerms]
   /\ seen = [n \in Nodes |-> {}]
   /\ gnet = {}
+  /\ plock = {}
   /\ phase = [n \in Nodes |-> "idle"]
   /\ hashes = [n \in Nodes |-> {}]
   /\ bnet = {}
@@ -286,16 +292,17 @@ Propose(js, rs, ls) ==
      /\ st' = [st EXCEPT ![Leader] = "Proposing"]
      /\ stored' = [stored EXCEPT ![Leader] = t]
      /\ seen' = sn
-     /\ gnet' = SendGossip(gnet, PktP, Leader, t, sn)
+     \* the leader's own calls are tracked in plock: Command returns when all have returned
+     /\ plock' = Recipients(t) \ {Leader}
   /\ op' = [name |-> "Propose", join |-> js, remain |-> rs, leave |-> ls]
-  /\ UNCHANGED <<rank, phase, hashes, bnet, qual, clock, fin>>
+  /\ UNCHANGED <<rank, gnet, phase, hashes, bnet, qual, clock, fin>>
 
 (* Command(Join): joiners do not gossip                                      *)
 Join(n) ==
   /\ n \in JoinSet /\ st[n] = "Proposed"
   /\ st' = [st EXCEPT ![n] = "Joined"]
   /\ op' = [name |-> "Join", n |-> n]
-  /\ UNCHANGED <<rank, prop, stored, seen, gnet, phase, hashes, bnet, qual, clock, fin>>
+  /\ UNCHANGED <<rank, prop, stored, seen, gnet, plock, phase, hashes, bnet, qual, clock, fin>>
 
 (* Command(Accept)                                                           *)
 Accept(n) ==
@@ -305,23 +312,25 @@ Accept(n) ==
      /\ seen' = sn
      /\ gnet' = SendGossip(gnet, PktA(n), n, stored[n], sn)
   /\ op' = [name |-> "Accept", n |-> n]
-  /\ UNCHANGED <<rank, prop, stored, phase, hashes, bnet, qual, clock, fin>>
+  /\ UNCHANGED <<rank, prop, stored, plock, phase, hashes, bnet, qual, clock, fin>>
 
 (* Command(Execute) by the leader: nothing makes it wait for the accepts.    *)
 Execute ==
   /\ st[Leader] = "Proposing"
+  /\ plock = {}           \* the proposal command still holds the lock otherwise
   /\ LET sn == [seen EXCEPT ![Leader] = @ \cup {PktE}] IN
      /\ st' = [st EXCEPT ![Leader] = "Executing"]
      /\ phase' = [phase EXCEPT ![Leader] = "setup"]
      /\ seen' = sn
      /\ gnet' = SendGossip(gnet, PktE, Leader, stored[Leader], sn)
   /\ op' = [name |-> "Execute"]
-  /\ UNCHANGED <<rank, prop, stored, hashes, bnet, qual, clock, fin>>
+  /\ UNCHANGED <<rank, prop, stored, plock, hashes, bnet, qual, clock, fin>>
 
 (* Process.Packet at `to`.  A copy for a node that has seen the packet is     *)
 (* ignored; an error leaves the call pending (sendToPeer retries).           *)
 GDeliver(pid, to) ==
   /\ <<pid, to>> \in gnet
+  /\ to = Leader => plock = {}     \* Process.Packet waits for the process lock
   /\ IF pid \in seen[to]
        THEN /\ gnet' = gnet \ {<<pid, to>>}
             /\ UNCHANGED <<st, stored, seen, phase>>
@@ -333,8 +342,24 @@ GDeliver(pid, to) ==
             /\ LET sn == [seen EXCEPT ![to] = @ \cup {pid}] IN
                /\ seen' = sn
                /\ gnet' = SendGossip(gnet \ {<<pid, to>>}, pid, to, prop, sn)
-  /\ op' = [name |-> "GDeliver", typ |-> pid[1], origin |-> pid[2], to |-> to]
-  /\ UNCHANGED <<rank, prop, hashes, bnet, qual, clock, fin>>
+  /\ op' = [name |-> "GDeliver", typ |-> pid[1], origin |-> pid[2], to |-> to, from |-> 0]
+  /\ UNCHANGED <<rank, prop, plock, hashes, bnet, qual, clock, fin>>
+
+(* the leader's own proposal call to m is answered                           *)
+PDeliver(m) ==
+  /\ m \in plock
+  /\ IF PktP \in seen[m]
+       THEN UNCHANGED <<st, stored, seen, gnet>>
+       ELSE LET r == ApplyPacket(m, PktP, st[m], prop)
+                sn == [seen EXCEPT ![m] = @ \cup {PktP}] IN
+            /\ r.ok
+            /\ st' = [st EXCEPT ![m] = r.st]
+            /\ stored' = [stored EXCEPT ![m] = prop]
+            /\ seen' = sn
+            /\ gnet' = SendGossip(gnet \ {<<PktP, m>>}, PktP, m, prop, sn)
+  /\ plock' = plock \ {m}
+  /\ op' = [name |-> "GDeliver", typ |-> "P", origin |-> 0, to |-> m, from |-> Leader]
+  /\ UNCHANGED <<rank, prop, phase, hashes, bnet, qual, clock, fin>>
 
 (* the whole gossip phase in one step (configs that explore something else) *)
 GossipAll(js, rs, ls) ==
@@ -347,7 +372,7 @@ GossipAll(js, rs, ls) ==
      /\ stored' = [n \in Nodes |-> IF n \in Recipients(t) THEN t ELSE stored[n]]
      /\ phase' = [n \in Nodes |-> IF n \in Participants(t) THEN "setup" ELSE "idle"]
   /\ op' = [name |-> "GossipAll", join |-> js, remain |-> rs, leave |-> ls]
-  /\ UNCHANGED <<rank, seen, gnet, hashes, bnet, qual, clock, fin>>
+  /\ UNCHANGED <<rank, seen, gnet, plock, hashes, bnet, qual, clock, fin>>
 
 ExecNodes == Participants(prop)
 
@@ -371,7 +396,7 @@ Start(n) ==
      /\ bnet' = SendBundles(bnet, r.push, n, hs)
      /\ qual' = SetQual(r.ph, n)
   /\ op' = [name |-> "Start", n |-> n]
-  /\ UNCHANGED <<rank, prop, st, stored, seen, gnet, clock, fin>>
+  /\ UNCHANGED <<rank, prop, st, stored, seen, gnet, plock, clock, fin>>
 
 (* echoBroadcast.BroadcastDKG(b) at node `to`                                *)
 BDeliver(b, to) ==
@@ -389,7 +414,7 @@ BDeliver(b, to) ==
             /\ bnet' = SendBundles(bnet \ {<<b, to>>}, {b} \cup r.push, to, hs)
             /\ qual' = SetQual(r.ph, to)
   /\ op' = [name |-> "BDeliver", kind |-> b[1], origin |-> b[2], to |-> to]
-  /\ UNCHANGED <<rank, prop, st, stored, seen, gnet, clock, fin>>
+  /\ UNCHANGED <<rank, prop, st, stored, seen, gnet, plock, clock, fin>>
 
 Timely == ExecNodes \ LateSet
 
@@ -414,7 +439,7 @@ Timeout(n) ==
      /\ bnet' = SendBundles(bnet, r.push, n, hs)
      /\ qual' = SetQual(r.ph, n)
   /\ op' = [name |-> "Timeout", n |-> n]
-  /\ UNCHANGED <<rank, prop, st, stored, seen, gnet, clock, fin>>
+  /\ UNCHANGED <<rank, prop, st, stored, seen, gnet, plock, clock, fin>>
 
 (* the whole kyber run in one step                                           *)
 ExecAll ==
@@ -424,7 +449,7 @@ ExecAll ==
   /\ phase' = [n \in Nodes |-> IF n \in ExecNodes THEN (IF n \in LateSet THEN "failed" ELSE "done") ELSE phase[n]]
   /\ qual' = [n \in Nodes |-> IF n \in Timely THEN QualOf(prop, LateSet) ELSE qual[n]]
   /\ op' = [name |-> "ExecAll"]
-  /\ UNCHANGED <<rank, prop, st, stored, seen, gnet, hashes, bnet, clock, fin>>
+  /\ UNCHANGED <<rank, prop, st, stored, seen, gnet, plock, hashes, bnet, clock, fin>>
 
 (* time passes while nodes are finishing                                     *)
 Tick ==
@@ -432,7 +457,7 @@ Tick ==
   /\ \E n \in Nodes : phase[n] = "done" /\ st[n] = "Executing"
   /\ clock' = clock + 1
   /\ op' = [name |-> "Tick", now |-> clock + 1]
-  /\ UNCHANGED <<rank, prop, st, stored, seen, gnet, phase, hashes, bnet, qual, fin>>
+  /\ UNCHANGED <<rank, prop, st, stored, seen, gnet, plock, phase, hashes, bnet, qual, fin>>
 
 (* startDKGExecution result -> asGroup -> DBState.Complete -> SaveFinished,  *)
 (* the transition time is read from the node's OWN clock NOW.                *)
@@ -441,14 +466,14 @@ Complete(n) ==
   /\ fin' = [fin EXCEPT ![n] = BuildGroup(stored[n], qual[n], rank, clock)]
   /\ st' = [st EXCEPT ![n] = "Done"]
   /\ op' = [name |-> "Complete", n |-> n, now |-> clock]
-  /\ UNCHANGED <<rank, prop, stored, seen, gnet, phase, hashes, bnet, qual, clock>>
+  /\ UNCHANGED <<rank, prop, stored, seen, gnet, plock, phase, hashes, bnet, qual, clock>>
 
 (* error path -> Failed -> SaveCurrent                                       *)
 Fail(n) ==
   /\ phase[n] = "failed" /\ st[n] = "Executing"
   /\ st' = [st EXCEPT ![n] = "Failed"]
   /\ op' = [name |-> "Fail", n |-> n]
-  /\ UNCHANGED <<rank, prop, stored, seen, gnet, phase, hashes, bnet, qual, clock, fin>>
+  /\ UNCHANGED <<rank, prop, stored, seen, gnet, plock, phase, hashes, bnet, qual, clock, fin>>
 
 Next ==
   \/ \E js \in ListChoices(JoinSet), rs \in ListChoices(RemainSet), ls \in ListChoices(LeaveSet) :
@@ -456,13 +481,14 @@ Next ==
   \/ \E n \in Nodes : Join(n) \/ Accept(n) \/ Start(n) \/ Timeout(n) \/ Complete(n) \/ Fail(n)
   \/ Execute
   \/ \E m \in gnet : GDeliver(m[1], m[2])
+  \/ \E m \in plock : PDeliver(m)
   \/ \E m \in bnet : BDeliver(m[1], m[2])
   \/ ExecAll
   \/ Tick
 
 Spec == Init /\ [][Next]_vars
 
-View == <<rank, prop, st, stored, seen, gnet, phase, hashes, bnet, qual, clock, fin>>
+View == <<rank, prop, st, stored, seen, gnet, plock, phase, hashes, bnet, qual, clock, fin>>
 
 -----------------------------------------------------------------------------
 (* Invariants of the design                                                  *)
@@ -481,12 +507,12 @@ Inv_SameGroupButTransition == SameGroupExcept(FinOf(fin), {"TransitionTime"})
 \* every node executes the terms of the one signed proposal
 Inv_SameTerms == \A n \in Nodes : st[n] \in {"Executing", "Done"} => stored[n] = prop
 
-\* indices depend on the keys only
+\* indices depend on the keys only: whatever listing order Init/Propose chose, a member's index
+\* is the position of its key (so any two listings agree: OrderIndependent)
 Inv_OrderIndependent ==
-  \A n \in Done(fin) : OrderIndependent(fin[n].members, JoinSet \cup RemainSet, rank)
+  \A n \in Done(fin) : IndexIsRank(fin[n].members, JoinSet \cup RemainSet, rank)
 Inv_OwnIndex ==
-  \A n \in Done(fin) : \E i \in 0..Cardinality(Nodes) :
-       OwnIndex(n, fin[n].members, i, JoinSet \cup RemainSet, rank)
+  \A n \in Done(fin) : OwnIndex(n, fin[n].members, IndexOf(n, JoinSet \cup RemainSet, rank))
 
 \* the black box is used as stated: every node that finishes kyber has the same QUAL
 Inv_SameQual == \A a, b \in Nodes : (phase[a] = "done" /\ phase[b] = "done") => qual[a] = qual[b]
